@@ -2,8 +2,10 @@
 
 (D) spec/RegSync.tla (the decision automaton of `regsync once|check`, one action per registry
 request) is model-checked by TLC over the scenario spaces of spec/RegSyncMC.tla against the
-postconditions of spec/RegSyncDefs.tla; three expected counterexamples keep the known design facts
-visible (S14 filter anchoring, C18-2 forced platform copy without backup, shared backup name race).
+postconditions of spec/RegSyncDefs.tla; three expected counterexamples keep design facts visible:
+the two defects as found before their fixes (C18-1 / S14 filter anchoring, fixed in 798ad2f; C18-2
+forced platform copy without backup, fixed in 749f3ad - the as-found readings remain as switches of
+(D)) and the shared backup name race.
 RegSyncGen emits behaviours of (D) - random members of the model-checked spaces and free random
 scenarios - each with the design's prediction per run.  harness/cmd/c18drv turns every scenario
 into a YAML configuration plus populated model registries (simreg on loopback listeners), execs the
@@ -142,8 +144,8 @@ def run(ctx):
         mc.append(ctx.tlc("RegSyncMC", "C18_mc_s14fixed.cfg", workers=8, timeout=3000,
                           label="all 2-3 element alternations over 5 tags as allow and deny list, anchored reading"))
     known_cex = {}
-    cex = [("C18_mc_s14.cfg", "PostOk", "S14 filter anchoring"),
-           ("C18_mc_bkforce.cfg", "BackupOk", "forced platform copy skips the backup")]
+    cex = [("C18_mc_s14.cfg", "PostOk", "filter anchoring as found before 798ad2f (C18-1 / S14)"),
+           ("C18_mc_bkforce.cfg", "BackupOk", "forced platform copy skips the backup, as found before 749f3ad (C18-2)")]
     if thorough:
         cex.append(("C18_mc_sharedbk.cfg", "BackupOk", "two entries sharing one backup name race"))
     for cfg, inv, what in cex:
@@ -166,20 +168,26 @@ def run(ctx):
             scns.append(s)
     if len(scns) < (n_rand + n_space) * 0.9:
         raise vlib.ToolError("generators produced only %d scenarios" % len(scns))
-    # scenarios in the input class of a recorded finding are validated in their own small batch; the
-    # surplus of the alternation class is re-spelled with a group (same abstract scenario)
+    # While a finding is recorded as `known` (not yet fixed), scenarios in its input class are validated in
+    # their own small batch (capped; the surplus of the alternation class is re-spelled with a group, the
+    # surplus of the forced platform class is not run).  Once it is `fixed` nothing is set apart: every
+    # scenario runs as generated and a regression is reported like any other violation.
+    open_ids = {k["id"] for k in ctx.load_known().get("findings", []) if k.get("property") == "C18" and k.get("status") == "known"}
+    part_alt = "C18-1-filter-anchoring" in open_ids
+    part_force = "C18-2-forced-platform-copy-no-backup" in open_ids
     cap = 20 if thorough else 4          # per class and per generator
     n_alt = n_force = respelled = 0
     taken = {}
     for s in scns:
         s["suspect"] = ""
         src = s["id"][0]
-        if force_exposed(s):
-            n_force += 1
+        fe, ae = force_exposed(s), alt_exposed(s)
+        n_force += fe
+        n_alt += ae and not fe
+        if fe and part_force:
             taken[(src, "force")] = taken.get((src, "force"), 0) + 1
             s["suspect"] = "force" if taken[(src, "force")] <= cap else "skip"
-        elif alt_exposed(s):
-            n_alt += 1
+        elif ae and part_alt:
             taken[(src, "alt")] = taken.get((src, "alt"), 0) + 1
             if taken[(src, "alt")] <= cap:
                 s["suspect"] = "alt"
@@ -318,7 +326,7 @@ def run(ctx):
                 "distinct = distinct (entry shapes, option values, run/move sequence) combinations",
         "exhaustive": False,
         "tlc_scenarios": len(scns), "scenarios_run": len(run_scns), "runs_by_mode": modes,
-        "known_class_scenarios": {"alt_filter": n_alt, "platform_force": n_force, "validated_separately": len(suspects),
+        "finding_class_scenarios": {"alt_filter": n_alt, "platform_force": n_force, "validated_separately": len(suspects),
                                   "respelled_with_group": respelled, "not_run": len(scns) - len(run_scns)},
         "design_prediction_exact": exact, "design_drift": drift,
         "expected_counterexamples": known_cex,
